@@ -135,6 +135,34 @@ impl<'a, 'b> G<'a, 'b> {
         (lit, value)
     }
 
+    /// an @supports condition: declarations, `not`, and/or chains, parenthesised sub-conditions on
+    /// either side (`((a: b) or (c: d)) and (e: f)`, `(not (a: b)) and (c: d)`)
+    fn supports_cond(&mut self, depth: usize) -> String {
+        let atom = |g: &mut Self| format!("({}: {})", g.c.of(&["display", "a", "--x", "gap"]), g.c.of(&["grid", "b", "1px", "0"]));
+        if depth >= 2 {
+            return atom(self);
+        }
+        match self.c.pick(5) {
+            0 => atom(self),
+            1 => format!("not {}", self.supports_operand(depth + 1)),
+            2 | 3 => {
+                let op = if self.c.flag() { "and" } else { "or" };
+                let n = 2 + self.c.pick(2);
+                (0..n).map(|_| self.supports_operand(depth + 1)).collect::<Vec<_>>().join(&format!(" {} ", op))
+            }
+            _ => atom(self),
+        }
+    }
+
+    fn supports_operand(&mut self, depth: usize) -> String {
+        let inner = self.supports_cond(depth);
+        if inner.starts_with('(') && !inner.contains(") and (") && !inner.contains(") or (") {
+            inner
+        } else {
+            format!("({})", inner)
+        }
+    }
+
     fn feat(&mut self, f: &str) {
         if !self.feats.iter().any(|x| x == f) {
             self.feats.push(f.to_string());
@@ -362,7 +390,8 @@ impl<'a, 'b> G<'a, 'b> {
                 self.feat("supports");
                 let sel = self.selector();
                 let b = self.body("    ", false);
-                format!("@supports (display: grid) and (not (display: inline-grid)) {{\n  {} {{\n{}  }}\n}}\n", sel, b)
+                let cond = self.supports_cond(0);
+                format!("@supports {} {{\n  {} {{\n{}  }}\n}}\n", cond, sel, b)
             }
             8 => self.comment(""),
             9 => {
